@@ -108,6 +108,7 @@ func (store *Store) CreatePreamble() error {
 	store.mut.Lock()
 	store.mut.Unlock()
 
+	verifPoint("pre.create.begin")
 	// Get current state.
 	state := internal.FilterExpiredKeys(store.clock.Now(), store.getStateFunc())
 	o, err := json.Marshal(state)
@@ -115,10 +116,12 @@ func (store *Store) CreatePreamble() error {
 		return err
 	}
 
+	verifPoint("pre.create.after_state")
 	// Truncate the preamble first
 	if err = store.rw.Truncate(0); err != nil {
 		return err
 	}
+	verifPoint("pre.create.after_truncate")
 	// Seek to the beginning of the file after truncating
 	if _, err = store.rw.Seek(0, 0); err != nil {
 		return err
@@ -127,11 +130,13 @@ func (store *Store) CreatePreamble() error {
 	if _, err = store.rw.Write(o); err != nil {
 		return err
 	}
+	verifPoint("pre.create.after_write")
 
 	// Sync the changes
 	if err = store.rw.Sync(); err != nil {
 		return err
 	}
+	verifPoint("pre.create.after_sync")
 
 	return nil
 }
